@@ -492,6 +492,44 @@ Proof.
 Qed.
 Print Assumptions C08_tparams_reencode_nonvacuous.
 
+(** Round 3 — the exact error of a NON-first offending parameter.  If the loop of unmarshal accepts
+    the parameters in front ([tp_run ... = Ok _], input made of bytes) and the switch rejects the next
+    parameter with class c / auxiliary value a, the whole input fails with exactly [Err c a], whatever
+    follows: the first offending parameter decides. *)
+From V Require Import Wire.TParamsPrefix.
+
+Theorem C08_tparams_first_error : forall pers ticket ps s1 id body rest c a,
+  params_wf ps -> Forall is_byte (enc_params ps) ->
+  tp_run pers st_init (enc_params ps) = Ok s1 ->
+  vwf id -> vwf (zlen body) ->
+  (forall s, tp_step pers id (zlen body) (body ++ rest) s = Err c a) ->
+  unmarshal pers ticket (enc_params ps ++ enc_param id body ++ rest) = Err c a.
+Proof. exact unmarshal_first_error. Qed.
+Print Assumptions C08_tparams_first_error.
+
+(** instantiated for the six range rules: exact class at any position *)
+Theorem C08_reject_range_exact_class : forall pers ticket ps s1 body v rest,
+  params_wf ps -> Forall is_byte (enc_params ps) -> tp_run pers st_init (enc_params ps) = Ok s1 ->
+  varint_body body v ->
+  (TP_MaxAckDelayExponent < v -> unmarshal pers ticket (enc_params ps ++ enc_param TP_ID_ade body ++ rest) = Err E_TP_ADE 0) /\
+  (TP_MaxMaxAckDelayMs < v -> unmarshal pers ticket (enc_params ps ++ enc_param TP_ID_mad body ++ rest) = Err E_TP_MAD 0) /\
+  (v < 1200 -> unmarshal pers ticket (enc_params ps ++ enc_param TP_ID_mups body ++ rest) = Err E_TP_MUPS 0) /\
+  (v < 2 -> unmarshal pers ticket (enc_params ps ++ enc_param TP_ID_acil body ++ rest) = Err E_TP_ACIL 0) /\
+  (TP_MaxStreamCount < v -> unmarshal pers ticket (enc_params ps ++ enc_param TP_ID_mbs body ++ rest) = Err E_TP_STREAMS_BIDI 0) /\
+  (TP_MaxStreamCount < v -> unmarshal pers ticket (enc_params ps ++ enc_param TP_ID_mus body ++ rest) = Err E_TP_STREAMS_UNI 0).
+Proof. exact reject_range_exact. Qed.
+Print Assumptions C08_reject_range_exact_class.
+
+Example C08_tparams_first_error_nonvacuous :
+  params_wf ex_ps_server /\ Forall is_byte (enc_params ex_ps_server) /\
+  (exists s1, tp_run Server st_init (enc_params ex_ps_server) = Ok s1) /\
+  unmarshal Server false (enc_params ex_ps_server ++ enc_param TP_ID_ade (vappend 21) ++ [1; 2; 3]) = Err E_TP_ADE 0.
+Proof.
+  split; [exact ex_ps_server_wf|]. split; [vm_compute; repeat constructor; discriminate|].
+  split; [eexists; vm_compute; reflexivity | vm_compute; reflexivity].
+Qed.
+Print Assumptions C08_tparams_first_error_nonvacuous.
+
 (* ==== end tparams ==== *)
 (* ==== headers ==== *)
 (** Packet headers (coq/Wire/Headers.v mirrors internal/wire/header.go, extended_header.go,
